@@ -390,6 +390,31 @@ namespace
         return ops;
     }
 
+    // observable state of a graph snapshot (also used to detect leaks between updates)
+    Digest snapshot_digest(graph_t& sg, bool single, const Env& env, const std::vector<double>& src)
+    {
+        Digest D;
+        GState SS = extract(sg.impl());
+        digest_tables(D, SS);
+        D.add_d("accumulate(1)", flat_vec(sg.accumulate(1.0)));
+        D.add_d("accumulate(src)", flat_vec(sg.accumulate(to_arr(env.g, src))));
+        if (single)
+        {
+            D.add_s("basins", flat_vec(sg.basins()));
+            auto& p1 = sg.impl_ptr()->pits();
+            D.add_s("pits", std::vector<std::size_t>(p1.begin(), p1.end()));
+        }
+        auto bl = sg.base_levels();
+        std::sort(bl.begin(), bl.end());
+        D.add_s("base_levels", bl);
+        std::vector<std::size_t> mk;
+        auto m = sg.mask();
+        for (std::size_t i = 0; i < m.size(); ++i)
+            mk.push_back(m.flat(i) ? 1 : 0);
+        D.add_s("mask", mk);
+        return D;
+    }
+
     void c16_case(Runner& R, Rng& rng, std::size_t max_side)
     {
         Env env = make_env(rng, max_side);
@@ -405,6 +430,7 @@ namespace
             std::unique_ptr<grid_t> grid;
             GraphBundle gb;
             bool single;
+            Digest last;  // digest of the snapshot right after the last update
         };
         std::vector<Prefix> prefixes;
         for (std::size_t k = 0; k < ops.size(); ++k)
@@ -489,6 +515,28 @@ namespace
             hash_inputs(ch, in);
             trace.push_back("update(" + in.field_cls + "," + in.mask_cls + "," + in.bl_cls + ")");
             apply_inputs(*M.graph, env.g, in);
+            if (s > 0)
+            {
+                // the new mask / base levels of the parent must not leak into a snapshot before the next update
+                for (auto& P : prefixes)
+                {
+                    if (!P.snap.save_graph)
+                        continue;
+                    graph_t& sg = M.graph->graph_snapshot(P.snap.name);
+                    Digest now = snapshot_digest(sg, P.single, env, src);
+                    std::string d = P.last.diff(now);
+                    if (!d.empty())
+                        R.violation("C16", "snapshot_changed_before_next_update:" + d.substr(0, d.find_first_of("[:")),
+                                    JObj()
+                                        .raw("grid", env.g.json(200))
+                                        .raw("operators", ops_json(ops))
+                                        .s("snapshot", P.snap.label())
+                                        .raw("history", jarr(trace, [](const std::string& x) { return jstr(x); }))
+                                        .s("detail", "set_mask / set_base_levels on the parent graph changed the snapshot before update_routes: " + d)
+                                        .str());
+                    R.count("c16.snapshots_reread_before_next_update");
+                }
+            }
             arr_t zin = to_arr(env.g, in.z);
             const arr_t& hm = M.graph->update_routes(zin);
             (void) hm;
@@ -554,6 +602,7 @@ namespace
                     if (!d.empty())
                         R.violation("C16", "graph_snapshot_differs:" + d.substr(0, d.find_first_of("[:")), witness("snapshot vs graph running only the prefix: " + d));
                     R.count("c16.graph_snapshots_compared");
+                    P.last = snapshot_digest(sg, P.single, env, src);
                     if (SS.W == 1)
                         R.count("c16.single_flow_snapshots");
                     else
